@@ -793,6 +793,10 @@ func (vfs *MemFS) Remove(name string) error {
 	child.Lock()
 	defer child.Unlock()
 
+	if !parent.mayUnlink(child.ownedBy(vfs.User()), vfs.User()) {
+		return &fs.PathError{Op: op, Path: name, Err: vfs.err.OpNotPermitted}
+	}
+
 	if c, ok := child.(*dirNode); ok {
 		if len(c.children) != 0 {
 			return &fs.PathError{Op: op, Path: name, Err: vfs.err.DirNotEmpty}
@@ -860,11 +864,15 @@ func (vfs *MemFS) RemoveAll(path string) error {
 		return &fs.PathError{Op: op, Path: path, Err: vfs.err.PermDenied}
 	}
 
-	parent.removeChild(pi.Part())
-
 	child.Lock()
+	defer child.Unlock()
+
+	if !parent.mayUnlink(child.ownedBy(vfs.User()), vfs.User()) {
+		return &fs.PathError{Op: op, Path: path, Err: vfs.err.OpNotPermitted}
+	}
+
+	parent.removeChild(pi.Part())
 	child.delete()
-	child.Unlock()
 
 	return nil
 }
@@ -891,10 +899,16 @@ func (vfs *MemFS) removeAll(parent *dirNode) error {
 			}
 		}
 
+		child.Lock()
+
+		if !parent.mayUnlink(child.ownedBy(vfs.User()), vfs.User()) {
+			child.Unlock()
+
+			return vfs.err.OpNotPermitted
+		}
+
 		// remove the entry together with the node: a directory must never list a deleted node.
 		parent.removeChild(name)
-
-		child.Lock()
 		child.delete()
 		child.Unlock()
 	}
@@ -934,6 +948,22 @@ func (vfs *MemFS) rename(oldpath, newpath string) (done bool, err error) {
 		return true, &os.LinkError{Op: op, Old: oldpath, New: newpath, Err: nErr}
 	}
 
+	// What is needed from the two entries themselves is read before the directories are locked :
+	// who owns them (sticky directories) and, for a directory that changes parent, if it can be written.
+	u := vfs.User()
+
+	oChild.Lock()
+	oOwned, oWritable := oChild.ownedBy(u), oChild.checkPermission(avfs.OpenWrite, u)
+	oChild.Unlock()
+
+	nOwned := true
+
+	if nChild != nil && nChild != oChild {
+		nChild.Lock()
+		nOwned = nChild.ownedBy(u)
+		nChild.Unlock()
+	}
+
 	// Lock the two directories in one order for all callers: the directory closer to the root first
 	// (as Remove, RemoveAll and ReadDir lock a directory before its children), the smaller path otherwise.
 	first, second := oParent, nParent
@@ -964,33 +994,30 @@ func (vfs *MemFS) rename(oldpath, newpath string) (done bool, err error) {
 		return true, &os.LinkError{Op: op, Old: oldpath, New: newpath, Err: vfs.err.PermDenied}
 	}
 
+	// sticky directories : the entry that is moved and the entry that is replaced must be the caller's.
+	if !oParent.mayUnlink(oOwned, u) {
+		return true, &os.LinkError{Op: op, Old: oldpath, New: newpath, Err: vfs.err.OpNotPermitted}
+	}
+
 	if nParent != oParent {
 		if !nParent.checkPermission(avfs.OpenWrite, vfs.User()) {
 			return true, &os.LinkError{Op: op, Old: oldpath, New: newpath, Err: vfs.err.PermDenied}
 		}
 	}
 
+	if nChild != nil && nChild != oChild && nChild != node(nParent) && !nParent.mayUnlink(nOwned, u) {
+		return true, &os.LinkError{Op: op, Old: oldpath, New: newpath, Err: vfs.err.OpNotPermitted}
+	}
+
 	if oPI.Path() == nPI.Path() {
 		return true, nil
 	}
 
-	switch oc := oChild.(type) {
+	switch oChild.(type) {
 	case *dirNode:
-		if nParent != oParent {
+		if nParent != oParent && !oWritable {
 			// the entry ".." of a directory changes when it is moved to another directory : write permission is needed on it.
-			// (when newpath is below oldpath, or oldpath is the root directory,
-			// the directory is locked already and the call fails further down)
-			ok := true
-
-			if oc != nParent && oc != oParent {
-				oc.mu.RLock()
-				ok = oc.checkPermission(avfs.OpenWrite, vfs.User())
-				oc.mu.RUnlock()
-			}
-
-			if !ok {
-				return true, &os.LinkError{Op: op, Old: oldpath, New: newpath, Err: vfs.err.PermDenied}
-			}
+			return true, &os.LinkError{Op: op, Old: oldpath, New: newpath, Err: vfs.err.PermDenied}
 		}
 
 		if !vfs.isNotExist(nErr) {
